@@ -17,6 +17,13 @@ The terms are those of gen/symkern.py (same program cpp/symkern.cpp, same run, s
                                 |k_<instance> (RndOps rnd) vars - k_<instance> ExactOps vars| <= gamma u <D> * mag_<instance> vars
     Lemma r_<instance>_bound64  the same at binary64 with 2^20 eps in place of gamma
 and per family  rounding_<family>_bounded / rounding_<family>_binary64  (the conjunctions) with proofs.
+For lin, bi and eval additionally, LAST in the file,
+    Lemma r_<instance>_terms          mag_<instance> vars = the magnitude of the model-side theorem of
+                                      coq/Proofs_Rounded.v (lin: 2 |h| eh_abs 0 (evens a) (h h); bi: bi_abs a b h;
+                                      eval: pabs c (|x| + |xm|)), by a fixed script ending in field / ring
+    Lemma r_<instance>_bound_terms, r_<instance>_bound64_terms   (lin, bi) the bounds relative to that magnitude
+and the summaries rounding_<family>_terms_are_the_exact_terms[_at_abs_sum], rounding_<family>_bounded_exact_terms,
+rounding_<family>_binary64_exact_terms.  A kernel that lets other terms take part (seeded/C16c) fails here.
 <N> (largest integer literal or integer-valued sub-result) and <D> (accumulated rounding factors) are
 computed here and CHECKED by Coq; the proof scripts are fixed.  Output is deterministic and a file is
 only rewritten when its content changes.
@@ -157,6 +164,23 @@ def example_value(j, last):
 
 
 # ------------------------------------------------------------------------------------------------
+# model-side magnitudes (the right-hand sides of the theorems of coq/Proofs_Rounded.v), per family:
+# instance -> (fixed tactic of coq/Proofs_RoundTac.v, magnitude in R_scope) or None
+COMBINED = ("lin", "bi")      # families whose code magnitude EQUALS the model theorem's: combined corollaries
+
+
+def model_magnitude(name, vars_):
+    fam = name.split("_")[0]
+    grp = lambda c: "[" + "; ".join(v for v in vars_ if v[0] == c and v[1:].isdigit()) + "]"   # noqa: E731
+    if fam == "lin":       # lin_kernel_rounded_bound
+        return "kterms_lin_tac", "2 * Rabs h * eh_abs 0 (evens %s) (h * h)" % grp("a")
+    if fam == "bi":        # bi_kernel_rounded_bound
+        return "kterms_bi_tac", "bi_abs %s %s h" % (grp("a"), grp("b"))
+    if fam == "eval":      # horner_rounded_bound has pabs c (x - xm); the code-order bound charges x - xm to |x| + |xm|
+        return "kterms_eval_tac", "pabs %s (Rabs x + Rabs xm)" % grp("c")
+    return None
+
+
 EXAMPLES = {"lin": "lin_4", "bi": "bi_3_3"}       # family -> instance of the non-vacuity example
 
 
@@ -235,7 +259,26 @@ def generate(got):
             % (intro, rew, inst64, name, need, depth, name, name, env),
         ]) + "\n"
         per[name] = dict(text=text, stmt=stmt, stmt64=stmt64, depth=depth, need=need, ts=ts, vars=vars_, memo=memo,
-                         scalar=scalar)
+                         scalar=scalar, rquant=rquant, mag=mag, args=args, intro=intro,
+                         diff="Rabs (%s - %s)" % (krnd("rnd"), kex), diff64="Rabs (%s - %s)" % (krnd("rnd64"), kex))
+        ref = model_magnitude(name, vars_)
+        if ref is not None:
+            tac, rhs = ref
+            p = per[name]
+            p["terms_stmt"] = "%s%s = %s" % (rquant, mag, rhs)
+            p["bterms_stmt"] = "(%d <= M)%%Z -> %s%s <= gamma u %d * (%s)" % (need, rquant, p["diff"], depth, rhs)
+            p["b64terms_stmt"] = "%s%s <= tol64 * (%s)" % (rquant, p["diff64"], rhs)
+            p["terms_text"] = (
+                "Lemma r_%s_terms :\n  %s.\nProof. %s mag_%s. Qed.\n" % (name, p["terms_stmt"], tac, name))
+            if name.split("_")[0] in COMBINED:
+                p["terms_text"] += (
+                    "Lemma r_%s_bound_terms : forall (u : R) (rnd : R -> R) (M : Z), 0 <= u -> std_model u rnd -> "
+                    "int_model rnd M ->\n  %s.\n"
+                    "Proof.\n  intros u rnd M Hu Hs Hi HM. %srewrite <- r_%s_terms. "
+                    "exact (r_%s_bound u rnd M Hu Hs Hi HM%s).\nQed.\n"
+                    "Lemma r_%s_bound64_terms :\n  %s.\n"
+                    "Proof. %srewrite <- r_%s_terms. apply r_%s_bound64. Qed.\n"
+                    % (name, p["bterms_stmt"], intro, name, name, args, name, p["b64terms_stmt"], intro, name, name))
         stats[name] = (depth, need)
 
     def nest(xs):
@@ -246,6 +289,7 @@ def generate(got):
         fname = kfile.replace("KernelGen_", "RoundGen_")
         members = [n for n, _ in fams if n.split("_")[0] in famlist]
         summaries = []
+        late = []       # the magnitude ties come last: when one fails, everything above it has been checked
         for fam in famlist:
             mem = [n for n in members if n.split("_")[0] == fam]
             dmax = max(per[n]["depth"] for n in mem)
@@ -263,6 +307,32 @@ def generate(got):
                 % (len(mem), dmax, nmax, fam, conj, fam, fam,
                    nest(["(r_%s_bound u rnd M Hu Hs Hi)" % n for n in mem]),
                    fam, conj64, fam, fam, nest(["r_%s_bound64" % n for n in mem])))
+            if "terms_text" in per[mem[0]]:
+                what = ("the magnitude of the code-order bound IS the magnitude of Proofs_Rounded.%s: only the terms "
+                        "of the exact result take part"
+                        % {"lin": "lin_kernel_rounded_bound", "bi": "bi_kernel_rounded_bound"}[fam]
+                        if fam in COMBINED else
+                        "the magnitude of the code-order bound is the Horner magnitude pabs of "
+                        "Proofs_Rounded.horner_rounded_bound with |x| + |xm| in place of |x - xm| (the subtraction "
+                        "is charged to both operands; Proofs_RoundTac.pabs_le_code: pabs c (x - xm) is below it)")
+                late.append("(* ---- %s: %s ---- *)\n" % (fam, what)
+                            + "\n".join(per[n]["terms_text"] for n in mem))
+                sname = "rounding_%s_terms_are_the_exact_terms%s" % (fam, "" if fam in COMBINED else "_at_abs_sum")
+                late.append("Definition %s : Prop :=\n  %s.\nLemma %s_ok : %s.\nProof. exact %s. Qed.\n"
+                            % (sname, " /\\\n  ".join("(%s)" % per[n]["terms_stmt"] for n in mem), sname, sname,
+                               nest(["r_%s_terms" % n for n in mem])))
+                if fam in COMBINED:
+                    late.append(
+                        "Definition rounding_%s_bounded_exact_terms : Prop :=\n"
+                        "  forall (u : R) (rnd : R -> R) (M : Z), 0 <= u -> std_model u rnd -> int_model rnd M ->\n    %s.\n"
+                        "Lemma rounding_%s_bounded_exact_terms_ok : rounding_%s_bounded_exact_terms.\n"
+                        "Proof. intros u rnd M Hu Hs Hi. exact %s. Qed.\n\n"
+                        "Definition rounding_%s_binary64_exact_terms : Prop :=\n  %s.\n"
+                        "Lemma rounding_%s_binary64_exact_terms_ok : rounding_%s_binary64_exact_terms.\nProof. exact %s. Qed.\n"
+                        % (fam, " /\\\n    ".join("(%s)" % per[n]["bterms_stmt"] for n in mem), fam, fam,
+                           nest(["(r_%s_bound_terms u rnd M Hu Hs Hi)" % n for n in mem]),
+                           fam, " /\\\n  ".join("(%s)" % per[n]["b64terms_stmt"] for n in mem), fam, fam,
+                           nest(["r_%s_bound64_terms" % n for n in mem])))
             if fam in EXAMPLES:
                 n = EXAMPLES[fam]
                 p = per[n]
@@ -291,12 +361,13 @@ def generate(got):
                 "   ranges are computed by the generator and checked here by vm_compute; the proof scripts are fixed.\n"
                 "   Families in this file: %s; %d instances. *)\n"
                 "From Coq Require Import List ZArith Reals Lra.\n"
-                "From BSpl Require Import Scalar Proofs_Rounded Proofs_RoundTac.\n"
+                "From BSpl Require Import Scalar Outcome Poly Forms Proofs_Rounded Proofs_RoundTac.\n"
                 "From BSpl.gen Require Import %s.\n"
                 "Import ListNotations.\nLocal Open Scope R_scope.\n\n"
                 % (fname, kfile, " ".join(famlist), len(members), kfile[:-2]))
         tail = "\nPrint Assumptions r_%s_bound.\nPrint Assumptions r_%s_bound64.\n" % (members[-1], members[-1])
-        files[fname] = head + "\n".join(per[n]["text"] for n in members) + "\n" + "\n".join(summaries) + tail
+        files[fname] = (head + "\n".join(per[n]["text"] for n in members) + "\n" + "\n".join(summaries)
+                        + ("\n" + "\n".join(late) if late else "") + tail)
     return files, per
 
 
